@@ -5,10 +5,18 @@
    compared with what the harness observes on dask.array.from_array, which binds
    the observation function to the vocabulary of the specification - and a family
    of corrupted observations, each of which must be caught by exactly the clause
-   that names the corruption (the clauses are neither vacuous nor redundant).   *)
+   that names the corruption (the clauses are neither vacuous nor redundant).
+
+   A second exhaustive family (spec -> code): every *basic index* of at most
+   MaxLen components - None (up to three, anywhere), integers, slices, Ellipsis -
+   on every chunking of the shapes in IdxShapes, with the shape NumPy gives the
+   result; the driver applies x[index] and TLC evaluates the clauses (plus that
+   shape) on what it observes: new axes placed one position off, or counted
+   wrongly against dropped integer axes, show up as declared chunks that do not
+   fit the computed blocks.                                                    *)
 EXTENDS ArrayMeta, TLC, Json
 
-CONSTANTS Shapes
+CONSTANTS Shapes, IdxShapes, MaxLen
 
 VARIABLES case, out
 
@@ -49,13 +57,47 @@ Corruptions(shape, chunks) ==
                   obs |-> [g EXCEPT !.blocks[b].c[1] = @ + 1000]]}
         ELSE {})
 
-Init == \E sh \in Shapes : \E ch \in NDChunkings(sh) :
-          /\ case = [shape |-> sh, chunks |-> ch]
-          /\ out = ToJson([c |-> case, e |-> Good(sh, ch)])
+-----------------------------------------------------------------------------
+\* basic indices: "n" None, "i" the integer 0, "j" the integer -1, "f" the full slice,
+\* "s" slice(1, None), "e" Ellipsis
+Menu == {"n", "i", "j", "f", "s", "e"}
+Consuming == {"i", "j", "f", "s"}
+Count(ix, S) == Cardinality({p \in DOMAIN ix : ix[p] \in S})
+ValidIdx(ix, nd) == Count(ix, {"e"}) <= 1 /\ Count(ix, {"n"}) <= 3 /\ Count(ix, Consuming) <= nd
+IdxSeqs(nd) == UNION {{ix \in [1..L -> Menu] : ValidIdx(ix, nd)} : L \in 1..MaxLen}
+
+\* Ellipsis (or the end of the index) stands for the full slices that are missing
+Expand(ix, nd) ==
+  LET fill == [q \in 1..(nd - Count(ix, Consuming)) |-> "f"]
+  IN IF \E p \in DOMAIN ix : ix[p] = "e"
+     THEN LET p == CHOOSE p \in DOMAIN ix : ix[p] = "e" IN SubSeq(ix, 1, p - 1) \o fill \o SubSeq(ix, p + 1, Len(ix))
+     ELSE ix \o fill
+
+\* shape of x[index]: a new axis of length 1 per None, integers drop their axis
+RECURSIVE OutShape(_, _)
+OutShape(ex, shape) ==
+  IF ex = <<>> THEN <<>>
+  ELSE CASE Head(ex) = "n" -> <<1>> \o OutShape(Tail(ex), shape)
+         [] Head(ex) \in {"i", "j"} -> OutShape(Tail(ex), Tail(shape))
+         [] Head(ex) = "f" -> <<Head(shape)>> \o OutShape(Tail(ex), Tail(shape))
+         [] Head(ex) = "s" -> <<IF Head(shape) > 0 THEN Head(shape) - 1 ELSE 0>> \o OutShape(Tail(ex), Tail(shape))
+
+Init ==
+  \/ \E sh \in Shapes : \E ch \in NDChunkings(sh) :
+        /\ case = [fam |-> "from_array", shape |-> sh, chunks |-> ch]
+        /\ out = ToJson([c |-> case, e |-> Good(sh, ch)])
+  \/ \E sh \in IdxShapes : \E ch \in NDChunkings(sh) : \E ix \in IdxSeqs(Len(sh)) :
+        /\ case = [fam |-> "index", shape |-> sh, chunks |-> ch, idx |-> ix]
+        /\ out = ToJson([c |-> case, e |-> [shape |-> OutShape(Expand(ix, Len(sh)), sh)]])
 Next == UNCHANGED <<case, out>>
 
 \* the observation of a correct implementation satisfies every clause
-GoodHolds == MetaHolds(Good(case.shape, case.chunks))
+GoodHolds == case.fam = "from_array" => MetaHolds(Good(case.shape, case.chunks))
 \* every corruption is flagged, by exactly the clauses that name it
-CorruptionsCaught == \A k \in Corruptions(case.shape, case.chunks) : MetaClauses(k.obs) = k.want
+CorruptionsCaught == case.fam = "from_array" =>
+                       \A k \in Corruptions(case.shape, case.chunks) : MetaClauses(k.obs) = k.want
+\* the result of a basic index has one axis per None / slice, none per integer
+IndexRank == case.fam = "index" =>
+               Len(OutShape(Expand(case.idx, Len(case.shape)), case.shape))
+                 = Len(case.shape) + Count(case.idx, {"n"}) - Count(case.idx, {"i", "j"})
 =============================================================================
